@@ -23,7 +23,7 @@ META = {
     "technique": "Coq proof (cache invariant + plan validity => run_plan bookkeeping cannot fail) + model/implementation correspondence",
 }
 GROUP = "planner"
-REQ = "From RV Require Import Prelude.\nFrom Planner Require Import Graph PlannerModel PlanCache Validate.\nOpen Scope N_scope."
+REQ = "From RV Require Import Prelude.\nFrom Planner Require Import Graph PlannerModel PlanCache Validate.\nOpen Scope N_scope.\nNotation case := case26 (only parsing)."
 THEOREMS = []
 
 
